@@ -39,18 +39,36 @@ pub fn run(text: &str, cases_path: &str, out: &mut impl Write) {
         let id = toks[1].to_string();
         match kv(&toks, "mode").unwrap_or("") {
             "aead" => {
-                let cipher = if kv(&toks, "cipher") == Some("aes") { Cipher::AesGcm256 } else { Cipher::XChaCha20Poly1305 };
+                let cname = kv(&toks, "cipher").unwrap_or("aes").to_string();
+                let cipher = match cname.as_str() { "aes" => Cipher::AesGcm256, "x25519" => Cipher::X25519, _ => Cipher::XChaCha20Poly1305 };
                 let len: usize = kv(&toks, "len").unwrap_or("16").parse().unwrap();
                 let mut r = Rng::new(kv(&toks, "seed").unwrap_or("1").parse().unwrap());
-                let ka = PrivateKey::Symmetric(DerivedPrivateKey::from(r.bytes(32)));
-                let kb = PrivateKey::Symmetric(DerivedPrivateKey::from(r.bytes(32)));
+                let asym = cname == "x25519";
+                let (ka, kb) = if asym {
+                    (PrivateKey::Asymmetric(age::x25519::Identity::generate()), PrivateKey::Asymmetric(age::x25519::Identity::generate()))
+                } else {
+                    (PrivateKey::Symmetric(DerivedPrivateKey::from(r.bytes(32))), PrivateKey::Symmetric(DerivedPrivateKey::from(r.bytes(32))))
+                };
                 let pt = r.bytes(len);
                 let pt2 = r.bytes(len.max(1));
                 rt.block_on(async {
-                    let pack = cipher.encrypt_symmetric(&ka, &pt, None).await.unwrap();
-                    let other = cipher.encrypt_symmetric(&ka, &pt2, None).await.unwrap();
-                    let roundtrip = cipher.decrypt_symmetric(&ka, &pack).await.map(|p| p == pt).unwrap_or(false);
-                    let wrongkey = cipher.decrypt_symmetric(&kb, &pack).await.is_ok();
+                    // one interface over the symmetric ciphers and the asymmetric (age) one
+                    async fn enc(c: &Cipher, k: &PrivateKey, pt: &[u8]) -> AeadPack {
+                        match k {
+                            PrivateKey::Asymmetric(id) => c.encrypt_asymmetric(k, pt, vec![id.to_public()]).await.unwrap(),
+                            _ => c.encrypt_symmetric(k, pt, None).await.unwrap(),
+                        }
+                    }
+                    async fn dec(c: &Cipher, k: &PrivateKey, p: &AeadPack) -> Option<Vec<u8>> {
+                        match k {
+                            PrivateKey::Asymmetric(_) => c.decrypt_asymmetric(k, p).await.ok(),
+                            _ => c.decrypt_symmetric(k, p).await.ok(),
+                        }
+                    }
+                    let pack = enc(&cipher, &ka, &pt).await;
+                    let other = enc(&cipher, &ka, &pt2).await;
+                    let roundtrip = dec(&cipher, &ka, &pack).await.map(|p| p == pt).unwrap_or(false);
+                    let wrongkey = dec(&cipher, &kb, &pack).await.is_some();
                     let mut tampered = 0usize;
                     let mut accepted: Vec<String> = vec![];
                     let nonce_bytes: Vec<u8> = pack.nonce.as_ref().to_vec();
@@ -59,7 +77,7 @@ pub fn run(text: &str, cases_path: &str, out: &mut impl Write) {
                     };
                     let mut try_pack = |kind: &str, p: AeadPack, tampered: &mut usize, accepted: &mut Vec<String>| {
                         *tampered += 1;
-                        let ok = futures::executor::block_on(cipher.decrypt_symmetric(&ka, &p)).is_ok();
+                        let ok = futures::executor::block_on(dec(&cipher, &ka, &p)).is_some();
                         if ok { accepted.push(kind.to_string()); }
                     };
                     for i in 0..nonce_bytes.len() * 8 {
